@@ -5,8 +5,8 @@ from core import Case, canon, hx, REPO
 import c01
 
 PROP = "C10"
-LEAN_MODULES = ["DrxProps.C10", "DrxProps.C10Cast", "DrxProps.C10Idx", "DrxProps.C10Snd", "DrxProps.C10Bitd", "DrxProps.C10Score"]
-FAMILIES = ["riff", "cast", "idx", "text", "snd", "score"]
+LEAN_MODULES = ["DrxProps.C10", "DrxProps.C10Cast", "DrxProps.C10Idx", "DrxProps.C10Snd", "DrxProps.C10Bitd", "DrxProps.C10Score", "DrxProps.C10Lscr"]
+FAMILIES = ["riff", "cast", "idx", "text", "snd", "score", "lscr"]
 RULE = ("for each public decoder: real files from the repo's fixtures (<= 64 KiB), mutated copies with every 1/2/4-byte field at the "
         "leading offsets set to 0, 1, -1, max, min and self-referential (len) values, truncations at many offsets, random byte strings, and "
         "generated containers/records; each call runs in a worker under an interval-timer alarm (hang => 'timeout') and an address-space "
@@ -383,7 +383,16 @@ def _fam_vwlb_zigzag(n):
     recs = b"".join(struct.pack(">hH", i, 0 if i % 2 == 0 else P) for i in range(n + 1))
     return "vwlb", struct.pack(">h", n) + recs + bytes(65 + (i % 26) for i in range(P)), {}
 
-FAMILIES_SCALING = dict(vwlb_zigzag=(_fam_vwlb_zigzag, 1500), lscr_nested=(_fam_lscr_nested, 100), riff=(_fam_riff, 300), mmap=(_fam_mmap, 300), cas=(_fam_cas, 2000), key=(_fam_key, 500), locate=(_fam_locate, 500),
+def _lscr_fam(fn, *args):
+    import lscr_common as lc
+    return "lscr", getattr(lc, fn)(*args), {"lnam": lc.build_lnam([b"test", b"x"]).hex()}
+
+def _fam_lscr_shared_locals(n): return _lscr_fam("fam_shared_locals", n, 20 * n)
+def _fam_lscr_shared_code(n): return _lscr_fam("fam_shared_code", n, 10 * n)
+def _fam_lscr_shared_consts(n): return _lscr_fam("fam_shared_consts", 15 * n, 100 * n)
+
+FAMILIES_SCALING = dict(lscr_shared_locals=(_fam_lscr_shared_locals, 10), lscr_shared_code=(_fam_lscr_shared_code, 10),
+                        lscr_shared_consts=(_fam_lscr_shared_consts, 40), vwlb_zigzag=(_fam_vwlb_zigzag, 1500), lscr_nested=(_fam_lscr_nested, 100), riff=(_fam_riff, 300), mmap=(_fam_mmap, 300), cas=(_fam_cas, 2000), key=(_fam_key, 500), locate=(_fam_locate, 500),
                         lscr_straight=(_fam_lscr_straight, 250), lscr_loops=(_fam_lscr_loops, 120), lscr_ifs=(_fam_lscr_ifs, 150))
 SCALING_MAX_RATIO = 2.6      # doubling the input may at most (a bit more than) double the executed lines
 
@@ -409,6 +418,13 @@ TWINS = {
     "snd": (lambda data, aux: f"snd steps {hx(data)}",
             [("drxtract.snd.format", "parse_snd_fmt1"), ("drxtract.snd.format", "parse_snd_commands"),
              ("drxtract.snd.snd2sampled", "snd_to_sampled"), ("drxtract.snd.command.bufferCmd", "_get_frames")]),
+    "lscr": (lambda data, aux: f"lscr steps {hx(data)} {aux['lnam'] if aux.get('lnam') else '-'}",
+             [("drxtract.lingosrc.parse.lscr", "parse_lrcr_crb"), ("drxtract.lingosrc.parse.lscr", "parse_lrcr_prb"),
+              ("drxtract.lingosrc.parse.lscr", "parse_lrcr_grb"), ("drxtract.lingosrc.parse.lscr", "parse_frb_func_names"),
+              ("drxtract.lingosrc.parse.lscr", "parse_frb"), ("drxtract.lingosrc.parse.lscr", "parse_opcodes"),
+              ("drxtract.lingosrc.opcodes.jump_op", "process"),
+              ("drxtract.lingosrc.parse.loop_detection", "condition_detect_in_statements"),
+              ("drxtract.lingosrc.parse.loop_detection", "loop_detect_in_statements")]),
     "vwsc": (lambda data, aux: f"score stepsum {hx(data)}",
              [("drxtract.vwsc.vwsc", "parse_vwsc_data"), ("drxtract.vwsc.cparser", "parse_vwsc_channels"), ("drxtract.vwsc.vwsc", "vwsc_to_score")]),
     "key": (lambda data, aux: f"idx steps key {aux.get('order', '>')} {hx(data)}", [("drxtract.key.key", "parse_key_file_data")]),
@@ -623,4 +639,21 @@ def _m_f37(case, f, p):
     return m.get("outcome") == "ok" and m["lines2"] / max(1, m["lines"]) <= 4.6
 
 
-MATCHERS = {"c10_decompiler_quadratic_in_jumps": _m_f37}
+def _m_shared(fams):
+    def m(case, f, p):
+        sp = case["spec"]
+        if sp.get("kind") != "scaling" or sp.get("family") not in fams:
+            return False
+        try:
+            m_ = json.loads(f.got)[-1] if f.got.startswith("[") else json.loads(f.got)
+            m_ = json.loads(m_) if isinstance(m_, str) else m_
+        except Exception:
+            return False
+        return (m_.get("outcome") == "ok" and m_["lines2"] / max(1, m_["lines"]) <= 4.6
+                and m_["peak"] / max(1, m_.get("peak1", m_["peak"])) <= 4.6)
+    return m
+
+
+MATCHERS = {"c10_decompiler_quadratic_in_jumps": _m_f37,
+            "c10_lscr_shared_tables_or_code": _m_shared(("lscr_shared_locals", "lscr_shared_code")),
+            "c10_lscr_shared_string_constant": _m_shared(("lscr_shared_consts",))}
